@@ -213,3 +213,123 @@ def grid_harness(prop, tier, seed, cov, log):
     cov['grid_span_hypothesis_checks'] = checks
     cov['grid_distribution'] = dict(sorted(totals.items()))
     return viol
+
+
+# ------------------------------------------------------------------ C03: noninterference on the real server
+
+def _parse_trace(path):
+    """histories of a drive trace: {idx: {'head': HIST line, 'events': [{'line': replayable E line, 'conn': c|None, 'ds': [(conn, text)]}]}}"""
+    hists = {}; cur = None; q = None; ev = None
+    for line in open(path):
+        line = line.rstrip('\n')
+        if line.startswith('HIST '):
+            cur = {'head': line, 'events': []}; hists[int(line.split()[1])] = cur; q = None
+        elif cur is None:
+            continue
+        elif line.startswith('Q '):
+            q = 'E ' + line[2:]
+        elif line.startswith('E '):
+            t = line.split()
+            conn = int(t[2]) if t[1] in ('connect', 'recv', 'handle', 'disconnect') else None
+            ev = {'line': q or line, 'kind': t[1], 'conn': conn, 'ds': [], 'raw': line}
+            cur['events'].append(ev); q = None
+        elif line.startswith('D ') and ev is not None:
+            t = line.split(' ', 2)
+            ev['ds'].append((int(t[1]), t[2] if len(t) > 2 else ''))
+        elif line.startswith('END'):
+            cur = None
+    return hists
+
+
+def _canon_out(text):
+    t = text.split()
+    if t and t[0] == 'pingReq': return 'pingReq #'           # clock-derived id
+    if t and t[0] == 'latencyResp': return ' '.join(t[:3])   # request id and round count; the ids are clock-derived
+    return text
+
+
+def _inboxes(events, conns):
+    box = {c: [] for c in conns}
+    for e in events:
+        group = {}
+        for (c, text) in e['ds']:
+            if c in box: group.setdefault(c, []).append(_canon_out(text))
+        for c, l in group.items():
+            # what one event delivers to one connection is compared as a multiset: updates flushed by one frame
+            # tick leave a Go map in arbitrary order
+            box[c].append(tuple(sorted(l)))
+    return box
+
+
+def noninterference(prop, tier, seed, cov, log):
+    """C03: re-run histories on the real server with all traffic of connections that never enter the first session
+    removed; what the members of that session receive must not change."""
+    import concurrent.futures as cf
+    n = 60 if tier == 'quick' else 600
+    rundir = f'{L.CACHE}/run/{prop}-ni'
+    os.makedirs(rundir, exist_ok=True)
+    jobs = []
+    profs = ['join', 'mixed', 'module', 'comp']
+    chunks = 8 if tier == 'quick' else 16
+    for i in range(chunks):
+        jobs.append(('gen', f'{rundir}/ni{i}.trace', ['-seed', str(seed * 1000 + 500 + i), '-n', str(max(1, n // chunks)), '-steps', '70',
+                                                      '-profile', profs[i % len(profs)], '-conns', '5']))
+    total = eligible = same = 0
+    viol = []; known = L.load_known(prop)
+    sizes = []
+    work = []
+    with cf.ThreadPoolExecutor(max_workers=L.NCPU) as ex:
+        for tf, out, err in ex.map(L.run_chunk, jobs):
+            if err:
+                continue
+            for idx, h in _parse_trace(tf).items():
+                total += 1
+                joined = {}
+                for e in h['events']:
+                    for (c, text) in e['ds']:
+                        t = text.split()
+                        if t[0] == 'joinResp': joined.setdefault(c, set()).add(int(t[3]))
+                K = {c for c, u in joined.items() if 1 in u}
+                if not K or any(joined[c] != {1} for c in K): continue
+                outsiders = {e['conn'] for e in h['events'] if e['conn'] is not None} - K
+                if not outsiders: continue
+                # outsiders must have done something a session could notice: joined somewhere or sent requests
+                eligible += 1
+                sizes.append((len(K), len(outsiders)))
+                keep = [e for e in h['events'] if (e['conn'] in K) or (e['conn'] is None and e['raw'].split()[1:3] == ['tick', '1']) or e['kind'] == 'drain']
+                work.append((tf, idx, h, K, keep))
+    def rerun(w):
+        tf, idx, h, K, keep = w
+        lines = [h['head']] + [e['line'] for e in keep]
+        tag = f'{prop}-ni-{os.path.basename(tf)}-{idx}'
+        out, err, tf2 = L.run_history(lines, tag)
+        if err: return (w, None, err)
+        h2 = list(_parse_trace(tf2).values())
+        return (w, h2[0] if h2 else None, None)
+    with cf.ThreadPoolExecutor(max_workers=L.NCPU) as ex:
+        for (w, h2, err) in ex.map(rerun, work):
+            tf, idx, h, K, keep = w
+            if h2 is None: continue
+            a = _inboxes(h['events'], K); b = _inboxes(h2['events'], K)
+            if a == b:
+                same += 1; continue
+            cause = 'outsiders-change-what-members-receive'
+            if any(e['cause'] == cause for e in known):
+                print(f'KNOWN-FINDING: property={prop} {[e for e in known if e["cause"] == cause][0]["what"]} [{cause}]'); continue
+            if viol: continue
+            c = next(c for c in K if a[c] != b[c])
+            i = next((i for i, (x, y) in enumerate(zip(a[c], b[c])) if x != y), min(len(a[c]), len(b[c])))
+            body = ['# the full history (first session = uuid 1, members ' + str(sorted(K)) + '):'] + L.extract_history(tf, idx) + \
+                   ['', '# the same history without the other connections:'] + [h['head']] + [e['line'] for e in keep] + \
+                   ['', f'# connection {c}, delivery group {i}: with outsiders {a[c][i] if i < len(a[c]) else "<nothing>"}',
+                    f'# without outsiders {b[c][i] if i < len(b[c]) else "<nothing>"}']
+            path = L.write_replay(prop, cause, {'property': prop, 'cause': cause, 'seed': seed, 'tier': tier,
+                                  'replay': 'replay both histories with .cache/bin/drive replay -in <file> and compare the D lines of the members'}, body)
+            viol.append((path, ''))
+    cov['noninterference_histories'] = total
+    cov['noninterference_eligible'] = eligible
+    cov['noninterference_identical'] = same
+    cov['noninterference_sizes'] = {'members': sorted({s[0] for s in sizes}), 'outsiders': sorted({s[1] for s in sizes})}
+    shutil_rm = __import__('shutil').rmtree
+    if os.environ.get('VERIF_KEEP') != '1': shutil_rm(rundir, ignore_errors=True)
+    return viol
